@@ -364,7 +364,7 @@ func (f *flow) oracleClose(fp string, c flowCase) {
 
 func flowCases(prop string, thorough bool) []flowCase {
 	var out []flowCase
-	kinds := []string{"polling", "websocket"}
+	kinds := []string{"polling", "websocket", "webtransport"}
 	if thorough {
 		kinds = append(kinds, "polling3")
 	}
@@ -417,3 +417,126 @@ func init() {
 }
 
 var _ = sort.Strings
+
+// C12 shutdown: Server.Close / closing the HTTP server the engine is attached to, with n
+// sessions of mixed transports (default schedule: the order in which the client table is
+// ranged is not owned by the scheduler).
+func init() {
+	register("C12", "shutdown", false, func(c *Ctx) {
+		kinds := []string{"polling-pending", "polling-idle", "polling-buffered", "websocket", "webtransport"}
+		n := 0
+		var rec func(cur []string)
+		run := func(set []string, how string) {
+			n++
+			id := fmt.Sprintf("shutdown %s with sessions %v", how, set)
+			c.Once(id, func(x *vsched.Exec) {
+				o := sessOpts()
+				hs := types.NewWebServer(nil)
+				srv := engine.Attach(hs, o)
+				w := &World{X: x, ByID: map[string]*SockRec{}, actions: map[string]int{}, PostMsgs: map[*Resp][]string{}, EpilogueFrom: 1 << 30, Srv: srv, Handler: hs}
+				w.hook()
+				var polls []*Resp
+				var wss []*WSClient
+				var wts []*WTClient
+				for _, k := range set {
+					switch k {
+					case "polling-pending", "polling-idle", "polling-buffered":
+						pc := &PollClient{W: w, EIO: 4}
+						r := pc.Get()
+						x.Settle()
+						pk, err := pc.DecodeResp(r)
+						if err != nil || len(pk) == 0 {
+							x.Fail("setup: handshake (%s)", id)
+							return
+						}
+						open, _ := ParseOpen(pk[0])
+						pc.Sid, _ = open["sid"].(string)
+						if k == "polling-pending" {
+							polls = append(polls, pc.Get())
+							x.Settle()
+						}
+						if k == "polling-buffered" {
+							rec := w.ByID[pc.Sid]
+							vsched.GoNamed("app-send", func() { rec.Sock.Send(types.NewStringBufferString("buffered"), nil, nil) })
+							x.Settle()
+						}
+					case "websocket":
+						ws := w.DialWS(4, "", false, false, "")
+						x.Settle()
+						wss = append(wss, ws)
+					case "webtransport":
+						wc := w.DialWT(0)
+						wc.Handshake()
+						x.Settle()
+						wts = append(wts, wc)
+					}
+				}
+				if len(w.Socks) != len(set) {
+					x.Fail("setup: %d sessions for %v", len(w.Socks), set)
+					return
+				}
+				done := false
+				vsched.GoNamed("shutdown", func() {
+					w.BeginAction()
+					if how == "server-close" {
+						srv.Close()
+					} else {
+						hs.Close(nil)
+					}
+					done = true
+				})
+				x.Run(x.Now() + time.Second)
+				fp := fmt.Sprintf("[%s n=%d]", how, len(set))
+				if !done {
+					x.Fail("shutdown-blocked%s: the call did not return: %v (%s)", fp, x.Blocked(), id)
+				}
+				for i, s := range w.Socks {
+					if cr := s.CloseReasons(); len(cr) != 1 {
+						x.Fail("shutdown-close-count[%s %s]: session #%d (%s) has %d close events %v, state %s (%s)", how, set[i], i, set[i], len(cr), cr, s.Sock.ReadyState(), id)
+					} else if cr[0] != "forced close" {
+						x.Fail("shutdown-close-reason[%s %s]: %q (%s)", how, set[i], cr[0], id)
+					}
+				}
+				if nn := srv.ClientsCount(); nn != 0 || srv.Clients().Len() != 0 {
+					x.Fail("shutdown-table%s: ClientsCount=%d table=%d after shutdown (%s)", fp, nn, srv.Clients().Len(), id)
+				}
+				for _, r := range polls {
+					if !r.wrote || !r.Returned {
+						x.Fail("shutdown-poll-not-released%s: a pending poll was not answered (%s)", fp, id)
+					} else if pk, err := (&PollClient{EIO: 4}).DecodeResp(r); err != nil || len(pk) == 0 || (pk[len(pk)-1].Type != '1' && pk[len(pk)-1].Type != '6') {
+						x.Fail("shutdown-poll-release-packet%s: pending poll released with %s (%s)", fp, fmtPkts(pk), id)
+					}
+				}
+				for _, ws := range wss {
+					if !ws.ServerClosed() {
+						x.Fail("shutdown-conn-open%s: a websocket connection is still open (%s)", fp, id)
+					}
+				}
+				for _, wc := range wts {
+					if !wc.Closed() && !wc.Stream.closed {
+						x.Fail("shutdown-conn-open%s: a webtransport session is still open (%s)", fp, id)
+					}
+				}
+				for _, t := range x.Panics() {
+					x.Fail("panic%s: %v (%s)", fp, t.Panic, id)
+				}
+				x.Outcome = fmt.Sprintf("%d closed", len(w.Socks))
+			})
+		}
+		rec = func(cur []string) {
+			for _, how := range []string{"server-close", "http-server-close"} {
+				run(cur, how)
+			}
+			if len(cur) == Pick(c, 3, 4) {
+				return
+			}
+			for _, k := range kinds {
+				rec(append(append([]string{}, cur...), k))
+			}
+		}
+		rec(nil)
+		c.Res.Distinct = int64(n)
+		c.Sample("shutdown http-server-close with sessions [polling-pending websocket webtransport]")
+		c.Note("Server.Close and closing the types.HttpServer the engine is attached to, with every sequence of 0-%d sessions over {polling with a pending poll, idle polling, polling with a buffered message, websocket, webtransport}: each session exactly one close event with reason forced close, table and count empty, pending polls released with a close/noop packet, connections closed", Pick(c, 3, 4))
+	})
+}
